@@ -17,7 +17,9 @@ use read_fonts::tables::hvar::Hvar;
 use read_fonts::tables::mvar::Mvar;
 use read_fonts::tables::variations::{DeltaSetIndex, DeltaSetIndexMap, ItemVariationStore};
 use read_fonts::tables::vvar::Vvar;
-use font_types::{Fixed, Tag};
+use font_types::{F26Dot6, Fixed, Point, Tag};
+use read_fonts::tables::glyf::{PointCoord, PointFlags, PointMarker};
+use read_fonts::tables::gvar::GlyphDelta;
 use read_fonts::tables::variations::{Tuple, TupleDelta, TupleIndex, TupleVariation, TupleVariationCount, TupleVariationData, TupleVariationHeader};
 use read_fonts::{FontData, FontRead, ReadError};
 
@@ -476,6 +478,8 @@ fn classify(ctx: &mut Ctx, req: &str, resp: &str) {
             "eM" => "err-malformed",
             "eT" => "err-metric-missing",
             "n" | "none" => "none",
+            "trap" => "trap",
+            "notuple" => "no-such-tuple",
             "s" | "ok" => "some",
             "0" => "zero",
             t if t.starts_with("eF") => "err-format",
@@ -537,9 +541,8 @@ fn run_tvhdr(ctx: &mut Ctx) {
             }
             b.bytes(&rbytes(&mut ctx.rng, 4));
             for v in variants(&mut ctx.rng, &b, 4) {
-                for a in [ac, ac + 1, ac.saturating_sub(1)] {
-                    ask_tvhdr(ctx, a, &v);
-                }
+                ask_tvhdr(ctx, ac, &v);
+                ask_tvhdr(ctx, if v.len() % 2 == 0 { ac + 1 } else { ac.saturating_sub(1) }, &v);
             }
             ctx.count(&format!("tvhdr.flags{:x}", flags >> 12));
         }
@@ -978,7 +981,7 @@ fn row_len(word_delta_count: u16, region_index_count: u16) -> usize {
 }
 
 /// returns the store and (item_count, region_index_count) per subtable
-fn ivs(rng: &mut Rng, axis_count: u16, n_regions: u16, n_data: usize) -> (B, Vec<(u16, u16)>) {
+fn ivs(rng: &mut Rng, axis_count: u16, n_regions: u16, n_data: usize, min_items: u16) -> (B, Vec<(u16, u16)>) {
     let mut b = B::new();
     b.u16(1).f32(0).f16(n_data as u16);
     let offs = b.len();
@@ -1003,13 +1006,13 @@ fn ivs(rng: &mut Rng, axis_count: u16, n_regions: u16, n_data: usize) -> (B, Vec
     }
     let mut shapes = vec![];
     for k in 0..n_data {
-        if rng.chance(1, 8) {
+        if min_items == 0 && rng.chance(1, 8) {
             shapes.push((0, 0));
             continue;
         }
         let at = b.len();
         b.set32(offs + 4 * k, at as u32);
-        let item_count = if rng.chance(1, 6) { 0 } else { 1 + rng.below(3) as u16 };
+        let item_count = if min_items > 0 { min_items + rng.below(2) as u16 } else if rng.chance(1, 6) { 0 } else { 1 + rng.below(3) as u16 };
         let nri = match rng.below(6) {
             0 => 0,
             1 => 17 + rng.below(3) as u16,
@@ -1089,7 +1092,7 @@ fn run_ivs(ctx: &mut Ctx) {
             _ => 1 + ctx.rng.below(4) as u16,
         };
         let n_data = 1 + ctx.rng.below(3) as usize;
-        let (b, shapes) = ivs(&mut ctx.rng, ac, n_regions, n_data);
+        let (b, shapes) = ivs(&mut ctx.rng, ac, n_regions, n_data, 0);
         let coords = if round % 3 == 2 { rcoords(&mut ctx.rng, ac.max(1)) } else { hot_coords(&mut ctx.rng, ac.max(1)) };
         // boundary outer / inner indices
         let mut pairs: Vec<(u16, u16)> = vec![(n_data as u16, 0), (0xFFFF, 0xFFFF), (n_data as u16 - 1, 0xFFFF)];
@@ -1124,7 +1127,8 @@ fn metrics_var_table(rng: &mut Rng, n_maps: usize, axis_count: u16) -> B {
         b.f32(0);
     }
     let (nr, n_data) = (1 + rng.below(3) as u16, 1 + rng.below(2) as usize);
-    let (store, _) = ivs(rng, axis_count, nr, n_data);
+    let min_items = if rng.chance(3, 4) { 3 } else { 0 };
+    let (store, _) = ivs(rng, axis_count, nr, n_data, min_items);
     let at = b.append(&store);
     b.set32(4, at as u32);
     for k in 0..n_maps {
@@ -1273,7 +1277,8 @@ fn run_mvar(ctx: &mut Ctx) {
         }
         if round % 5 != 4 {
             let (nr, nd) = (1 + ctx.rng.below(3) as u16, 1 + ctx.rng.below(2) as usize);
-            let (store, _) = ivs(&mut ctx.rng, ac, nr, nd);
+            let min_items = if ctx.rng.chance(3, 4) { 2 } else { 0 };
+            let (store, _) = ivs(&mut ctx.rng, ac, nr, nd, min_items);
             let at = b.append(&store);
             b.set16(10, at as u16);
         }
@@ -1343,6 +1348,108 @@ fn run_avar(ctx: &mut Ctx) {
     }
 }
 
+// ------------------------------------------------------------------------------------------------
+// accumulate_dense_deltas / accumulate_sparse_deltas:
+// `hv.acc <d|s> <f|s|i> <scalar> <n> <nf> <gid> <k> <hex>`
+
+fn acc_one<D: PointCoord>(t: &TupleVariation<GlyphDelta>, sparse: bool, n: usize, nf: usize, scalar: Fixed, seed: D, bits: &dyn Fn(D) -> u64) -> String {
+    let mut deltas = vec![Point::new(seed, seed); n];
+    let mut flags = vec![PointFlags::default(); nf];
+    let r = if sparse { t.accumulate_sparse_deltas(&mut deltas, &mut flags, scalar) } else { t.accumulate_dense_deltas(&mut deltas, scalar) };
+    match r {
+        Err(e) => err_str(&e),
+        Ok(()) => {
+            let x = fnv(deltas.iter().map(|p| bits(p.x)));
+            let y = fnv(deltas.iter().map(|p| bits(p.y)));
+            if sparse {
+                format!("ok {} {} {}", x, y, fnv(flags.iter().map(|f| f.has_marker(PointMarker::HAS_DELTA) as u64)))
+            } else {
+                format!("ok {x} {y}")
+            }
+        }
+    }
+}
+
+fn ask_acc(ctx: &mut Ctx, sparse: bool, kind: char, scalar: i32, n: usize, nf: usize, gid: u32, k: usize, bytes: &[u8]) {
+    let req = format!("hv.acc {} {} {} {} {} {} {} {}", if sparse { "s" } else { "d" }, kind, scalar, n, nf, gid, k, hex(bytes));
+    let r = catch(|| {
+        let s = match Gvar::read(FontData::new(bytes)).and_then(|g| g.glyph_variation_data(GlyphId::new(gid))) {
+            Err(e) => err_str(&e),
+            Ok(None) => "none".into(),
+            Ok(Some(tvd)) => match tvd.tuples().nth(k) {
+                None => "notuple".into(),
+                Some(t) => {
+                    let sc = Fixed::from_bits(scalar);
+                    match kind {
+                        'f' => acc_one::<Fixed>(&t, sparse, n, nf, sc, Fixed::from_bits(7), &|v| v.to_bits() as u32 as u64),
+                        's' => acc_one::<F26Dot6>(&t, sparse, n, nf, sc, F26Dot6::from_bits(7), &|v| v.to_bits() as u32 as u64),
+                        _ => acc_one::<i32>(&t, sparse, n, nf, sc, 7, &|v| v as u32 as u64),
+                    }
+                }
+            },
+        };
+        (s, Seen::default())
+    });
+    // KNOWN FINDING C01-accumulate-deltas-i32-overflow (known_findings.d/C01.json): for D = i32 the `+=`
+    // of the real code overflows; the model predicts exactly these panics (`trap`), so for this
+    // instantiation a panic is a response, not a no-panic failure
+    let r = match (kind, r) {
+        ('i', Err(m)) if m.contains("overflow") => Ok(("trap".to_string(), Seen::default())),
+        (_, r) => r,
+    };
+    settle(ctx, req, bytes, r);
+}
+
+fn run_acc(ctx: &mut Ctx) {
+    let rounds = if ctx.thorough { 30 } else { 6 };
+    for round in 0..rounds {
+        let axis_count = 1 + ctx.rng.below(2) as u16;
+        let n_points = 1 + ctx.rng.below(9) as usize;
+        let mut glyphs = vec![];
+        for _ in 0..2 {
+            let t = tuple_store(&mut ctx.rng, axis_count, true, 0, 0, n_points + 4);
+            let mut v = t.v;
+            if v.len() % 2 == 1 {
+                v.push(0);
+            }
+            glyphs.push(v);
+        }
+        let spec = GvarSpec { axis_count, n_shared: 0, glyphs, long: round % 2 == 0 };
+        let b = gvar_table(&mut ctx.rng, &spec);
+        let total = n_points + 4;
+        for (j, v) in variants(&mut ctx.rng, &b, 8).into_iter().enumerate() {
+            let sparse = j % 2 == 1;
+            let kind = ['f', 's', 'i'][j % 3];
+            let scalar = [0x10000, 0x8000, i32::MIN, 0x10000, i32::MAX, -1][j % 6];
+            let n = [total, total, 0, 1, total - 1, total + 1, 64, 400][j % 8];
+            let nf = [n, n, n + 1, n.saturating_sub(1), 0][j % 5];
+            ask_acc(ctx, sparse, kind, scalar, n, nf, (j % 2) as u32, (j / 2) % 2, &v);
+            if j == 0 {
+                // the intact table: every tuple, both modes, every type, several buffer sizes
+                for gid in 0..2 {
+                    for k in 0..2 {
+                        for kind in ['f', 's', 'i'] {
+                            for (n, nf) in [(total, total), (2, 5), (400, 3)] {
+                                for scalar in [0x10000, 0x4000] {
+                                    ask_acc(ctx, false, kind, scalar, n, nf, gid, k, &v);
+                                    ask_acc(ctx, true, kind, scalar, n, nf, gid, k, &v);
+                                }
+                            }
+                        }
+                    }
+                }
+            }
+        }
+        ctx.count("acc");
+    }
+    // the known finding's own repro: a tuple that lists point 1 twice with 32 bit deltas
+    let repro = unhex("00010000000000000000001c000100010000001c000000000000001e000100080016a00002010100c17fffffff7fffffffc10000000000000000");
+    for kind in ['f', 's', 'i'] {
+        ask_acc(ctx, true, kind, 0x10000, 4, 4, 0, 0, &repro);
+        ask_acc(ctx, false, kind, 0x10000, 4, 4, 0, 0, &repro);
+    }
+}
+
 pub fn run(ctx: &mut Ctx) {
     run_dsim(ctx);
     run_ivs(ctx);
@@ -1353,4 +1460,5 @@ pub fn run(ctx: &mut Ctx) {
     run_cvar(ctx);
     run_cvard(ctx);
     run_gvar(ctx);
+    run_acc(ctx);
 }
